@@ -222,7 +222,7 @@ theorem no_header_injection (c : Call) (hd : c.inDomain = true) :
   | format mt =>
     simp only [allLines, emit]
     intro l hl
-    simp only [List.cons_append, List.nil_append, List.mem_cons, List.mem_singleton, List.not_mem_nil, or_false] at hl
+    simp only [List.cons_append, List.nil_append, List.mem_cons, List.not_mem_nil, or_false] at hl
     rcases hl with rfl | rfl
     · exact ⟨nok_vary, by decide⟩
     · exact ⟨nok_ct, through_clean _ _ safe_format mt⟩
@@ -233,7 +233,7 @@ theorem no_header_injection (c : Call) (hd : c.inDomain = true) :
   | jsonp cb =>
     simp only [allLines, emit]
     intro l hl
-    simp only [List.cons_append, List.nil_append, List.mem_cons, List.mem_singleton, List.not_mem_nil, or_false] at hl
+    simp only [List.cons_append, List.nil_append, List.mem_cons, List.not_mem_nil, or_false] at hl
     rcases hl with rfl | rfl
     · exact ⟨nok_xcto, by decide⟩
     · exact ⟨nok_ct, by decide⟩
@@ -282,7 +282,7 @@ theorem readBlock_writeBlock (lines : List (Bytes × Bytes)) (body : Bytes) (fue
     | zero => omega
     | succ f =>
       have ⟨hn, hv⟩ := hl (n, v) (by simp)
-      simp only [nameOK, Bool.and_eq_true, bne_iff_ne, ne_eq, Bool.not_eq_true', decide_eq_true_eq] at hn
+      simp only [nameOK, Bool.and_eq_true, ne_eq, Bool.not_eq_true', decide_eq_true_eq] at hn
       obtain ⟨⟨hne, hcolon⟩, hclean⟩ := hn
       have hline : clean (n ++ [58, 32] ++ v) = true := by
         simp only [clean_append, hclean, hv]; decide
@@ -414,9 +414,118 @@ theorem flash_value_bytes_partial (loc : Bytes) (flash : List (Bytes × Bytes ×
     · by_cases h2 : c = 10
       · subst h2; decide
       · have : ([10, 13] : List Nat).contains c = false := by simp [h1, h2]
-        simp [this, h1, h2]
+        simp [h1, h2]
   rw [hs]
-  simp only [List.all_append, hk, Bool.and_true, Bool.true_and]
+  simp only [List.all_append, hk, Bool.and_true]
   decide
+
+end C07
+
+namespace C07
+open B
+
+/-! ### model ⊑ spec for the "exactly the intended lines / body / status" clauses -/
+
+theorem appendFold_nil_iff (vs : List Bytes) (acc : Bytes) :
+    vs.foldl (fun h v =>
+      if h = [] then v
+      else if h ≠ v ∧ !hasPrefix h (v ++ [44]) ∧ !hasSuffix h (32 :: v) ∧ (indexOf h (32 :: v ++ [44])).isNone then
+        h ++ b ", " ++ v
+      else h) acc = [] ↔ acc = [] ∧ ∀ v ∈ vs, v = [] := by
+  induction vs generalizing acc with
+  | nil => simp
+  | cons v vs ih =>
+    simp only [List.foldl_cons]
+    rw [ih]
+    by_cases ha : acc = []
+    · subst ha; simp
+    · simp only [ha, if_false, false_and, iff_false, not_and]
+      intro h
+      exfalso
+      split at h
+      · simp only [List.append_eq_nil_iff] at h; exact ha h.1.1
+      · exact ha h
+
+theorem appendValue_nil_iff (vs : List Bytes) : appendValue vs = [] ↔ ∀ v ∈ vs, v = [] := by
+  unfold appendValue
+  rw [appendFold_nil_iff]; simp
+
+/-- the header names the model emits are exactly the names the spec says the call intends, the body
+    is the intended body and the status the intended status -/
+theorem emit_meets_intent (c : Call) :
+    (emit c).lines.map (·.1) = intendedNames c ∧ (emit c).body = intendedBody c ∧ (emit c).status = intendedStatus c := by
+  cases c with
+  | append f vs =>
+    refine ⟨?_, rfl, rfl⟩
+    simp only [emit, intendedNames]
+    by_cases h : appendValue vs = []
+    · have := (appendValue_nil_iff vs).1 h
+      have hany : vs.any (· ≠ []) = false := by
+        rw [List.any_eq_false]; intro v hv; simp [this v hv]
+      simp only [h, hany]; rfl
+    · have hany : vs.any (· ≠ []) = true := by
+        refine Classical.byContradiction fun hc => h ?_
+        rw [appendValue_nil_iff]
+        intro v hv
+        refine Classical.byContradiction fun hne => hc ?_
+        rw [List.any_eq_true]
+        exact ⟨v, hv, by simp [hne]⟩
+      simp only [h, hany]; rfl
+  | vary fs =>
+    refine ⟨?_, rfl, rfl⟩
+    simp only [emit, intendedNames]
+    by_cases h : appendValue fs = []
+    · have := (appendValue_nil_iff fs).1 h
+      have hany : fs.any (· ≠ []) = false := by
+        rw [List.any_eq_false]; intro v hv; simp [this v hv]
+      simp only [h, hany]; rfl
+    · have hany : fs.any (· ≠ []) = true := by
+        refine Classical.byContradiction fun hc => h ?_
+        rw [appendValue_nil_iff]
+        intro v hv
+        refine Classical.byContradiction fun hne => hc ?_
+        rw [List.any_eq_true]
+        exact ⟨v, hv, by simp [hne]⟩
+      simp only [h, hany]; rfl
+  | redirectTo loc flash =>
+    refine ⟨?_, rfl, rfl⟩
+    simp only [emit, intendedNames, C12.issue]
+    by_cases hf : flash = []
+    · subst hf; simp [flashMsgs]
+    · have hne : flashMsgs flash ≠ [] := by
+        unfold flashMsgs
+        -- `withMsg` never returns the empty list
+        have key : ∀ (l : List (Bytes × Bytes × Nat)) (acc : List C12.Msg), (acc ≠ [] ∨ l ≠ []) →
+            l.foldl (fun ms c => C12.withMsg ms c.1 c.2.1 c.2.2) acc ≠ [] := by
+          intro l
+          induction l with
+          | nil => intro acc h; simpa using h
+          | cons x xs ih =>
+            intro acc _
+            simp only [List.foldl_cons]
+            apply ih
+            left
+            cases acc with
+            | nil => simp [C12.withMsg]
+            | cons m ms => simp only [C12.withMsg]; split <;> simp
+        exact key flash [] (Or.inr hf)
+      simp [hf, hne]
+  | clearCookie keys => exact ⟨by simp [emit, intendedNames], rfl, rfl⟩
+  | links ls =>
+    refine ⟨?_, rfl, rfl⟩
+    simp only [emit, intendedNames]
+    split <;> simp
+  | set k v => exact ⟨rfl, rfl, rfl⟩
+  | location p => exact ⟨rfl, rfl, rfl⟩
+  | cookie a => exact ⟨rfl, rfl, rfl⟩
+  | attachment f => exact ⟨rfl, rfl, rfl⟩
+  | type e cs => exact ⟨rfl, rfl, rfl⟩
+  | format mt => exact ⟨rfl, rfl, rfl⟩
+  | json ct => exact ⟨rfl, rfl, rfl⟩
+  | jsonp cb =>
+    refine ⟨rfl, ?_, rfl⟩
+    show cb ++ b "(" ++ jsonBody ++ b ");" = cb ++ b "(\"x\");"
+    rw [List.append_assoc, List.append_assoc]
+    congr 1
 
 end C07
